@@ -4,11 +4,12 @@
 # copy of /verif whose harness module points at it (used while other work is reading /repo; the official way — apply to /repo,
 # run, revert — is lib/seedrun.sh). Everything is removed afterwards.
 id=$1; shift
-W=/tmp/iso_$id
+SRC=$(cd "$(dirname "$0")/.." && pwd)   # the framework copy this script belongs to (/verif, or a private clone of it)
+W=/tmp/iso_${id}_$$
 rm -rf $W; mkdir -p $W
 git -C /repo worktree add -q --detach $W/repo HEAD || exit 2
-git -C $W/repo apply /verif/seeded/$id/patch.diff || { echo "patch does not apply"; git -C /repo worktree remove --force $W/repo; exit 2; }
-rsync -a --exclude .git --exclude '_build/cases' --exclude '_build/gencheck' --exclude replays /verif/ $W/verif/
+git -C $W/repo apply $SRC/seeded/$id/patch.diff || { echo "patch does not apply"; git -C /repo worktree remove --force $W/repo; exit 2; }
+rsync -a --exclude .git --exclude '_build/cases' --exclude '_build/gencheck' --exclude replays $SRC/ $W/verif/
 sed -i "s|=> /repo|=> $W/repo|" $W/verif/harness/go.mod
 cd $W/verif
 for p in "$@"; do VERIF_REPO=$W/repo ./check $p --tier ${TIER:-quick} 2>&1 | grep -E "^(VIOLATION|KNOWN|PASS|FAIL|  failing input|  broken|   MISMATCH)" | cut -c1-330 | head -7; done
